@@ -21,8 +21,8 @@ class C15(Check):
     exhaustive_note = (
         "switch table: form kind {float, choice} x optional {absent,T,F} x enabled {absent,T,F} x group "
         "{none, member without owner, owner of groupOptional T/F, member of a group whose owner has groupOptional "
-        "T/F and enabled T/F/absent} x dependency {none, bool driver T/F, optional driver enabled T/F/absent} x "
-        "dependencyType {absent, enabled, disabled} = 2880 rows, each crossed with value {None, valid, invalid} "
+        "T/F and enabled T/F/absent} x dependency {none, bool driver T/F, bool driver T/F with an explicit optional:false, optional driver enabled T/F/absent} x "
+        "dependencyType {absent, enabled, disabled} = 3960 rows, each crossed with value {None, valid, invalid} "
         "on InputValidation.validate and validate_data; plus the grid form kind (13) x value case x API "
         "{construction, validate_data, data setter, set_data_value} x identifier presentation {UUID, entity, text}"
     )
